@@ -59,9 +59,13 @@ func (r *Eval) Run(ctx context.Context, script []byte) (Object, *Bytecode, error
 	}
 
 	r.VM.modulesCache = r.ModulesCache
-	ret, err := r.run(ctx)
-	r.ModulesCache = r.VM.modulesCache
-	r.Locals = r.VM.GetLocals(r.Locals)
+	ret, ran, err := r.run(ctx)
+	if ran {
+		r.ModulesCache = r.VM.modulesCache
+		r.Locals = r.VM.GetLocals(r.Locals)
+	}
+	// a run refused because the context was done already has not touched the
+	// VM: there is nothing to save, the stack still is what Clear left behind.
 	r.VM.Clear()
 
 	if err != nil {
@@ -70,7 +74,7 @@ func (r *Eval) Run(ctx context.Context, script []byte) (Object, *Bytecode, error
 	return ret, bytecode, nil
 }
 
-func (r *Eval) run(ctx context.Context) (ret Object, err error) {
+func (r *Eval) run(ctx context.Context) (ret Object, ran bool, err error) {
 	ret = Undefined
 	doneCh := make(chan struct{})
 	// Always check whether context is done before running VM because
@@ -81,6 +85,7 @@ func (r *Eval) run(ctx context.Context) (ret Object, err error) {
 		r.VM.Abort()
 		err = ctx.Err()
 	default:
+		ran = true
 		go func() {
 			defer close(doneCh)
 			ret, err = r.VM.Run(r.Globals, r.Locals...)
